@@ -112,6 +112,10 @@ func main() {
 		climbMain(seed, evals, os.Args[4])
 		return
 	}
+	if len(os.Args) == 3 && os.Args[1] == "concur" {
+		concurMain(os.Args[2])
+		return
+	}
 	if len(os.Args) == 4 && os.Args[1] == "rerun" {
 		rerun(os.Args[2], os.Args[3])
 		return
